@@ -6,6 +6,7 @@ import (
 	"fmt"
 	"go/token"
 	"go/types"
+	"os"
 	"strings"
 
 	"golang.org/x/tools/go/ssa"
@@ -63,6 +64,34 @@ func mayReturnNilOK(f *ssa.Function, idx int) bool {
 		}
 		if isNilConst(r.Results[errIdx]) {
 			return true
+		}
+	}
+	return false
+}
+
+// mayReturnNilWithErr: result idx of f is nil on some return whose error result is not the nil constant
+func mayReturnNilWithErr(f *ssa.Function, idx int) bool {
+	if f.Blocks == nil {
+		return false
+	}
+	n := f.Signature.Results().Len()
+	for _, r := range returnsOf(f) {
+		if idx >= len(r.Results) || len(r.Results) != n {
+			continue
+		}
+		if isNilConst(r.Results[n-1]) {
+			continue
+		}
+		v := r.Results[idx]
+		if isNilConst(v) {
+			return true
+		}
+		if ph, ok := v.(*ssa.Phi); ok {
+			for _, e := range ph.Edges {
+				if isNilConst(e) {
+					return true
+				}
+			}
 		}
 	}
 	return false
@@ -133,22 +162,49 @@ func methodDerefsRecv(f *ssa.Function) bool {
 	if len(f.Params) == 0 {
 		return false
 	}
-	r := f.Params[0]
-	res := false
+	res := paramDerefsStatic(f, 0, 0)
+	derefCache[f] = res
+	return res
+}
+
+// paramDerefsStatic: parameter i of f is dereferenced without a nil check, in f or in a statically called
+// module function it is handed to (as receiver or argument)
+func paramDerefsStatic(f *ssa.Function, i, depth int) bool {
+	if f.Blocks == nil || i >= len(f.Params) || depth > 3 {
+		return false
+	}
+	r := f.Params[i]
 	for _, ref := range *r.Referrers() {
 		switch u := ref.(type) {
 		case *ssa.FieldAddr:
-			if !nilGuarded(u, r) {
-				res = true
+			if u.X == r && !nilGuarded(u, r) {
+				return true
 			}
 		case *ssa.UnOp:
-			if u.Op == token.MUL && !nilGuarded(u, r) {
-				res = true
+			if u.Op == token.MUL && u.X == r && !nilGuarded(u, r) {
+				return true
+			}
+		case *ssa.Call:
+			g := u.Call.StaticCallee()
+			if g == nil || g == f || !inModule(g) || nilGuarded(u, r) {
+				continue
+			}
+			for j, a := range u.Call.Args {
+				if a != r {
+					continue
+				}
+				if j == 0 && g.Signature.Recv() != nil {
+					if _, isPtr := g.Signature.Recv().Type().(*types.Pointer); !isPtr {
+						continue
+					}
+				}
+				if paramDerefsStatic(g, j, depth+1) {
+					return true
+				}
 			}
 		}
 	}
-	derefCache[f] = res
-	return res
+	return false
 }
 
 // nilGuarded: instruction `in` is only reachable through an edge on which v != nil
@@ -249,7 +305,7 @@ func e4Nil(e *e4Engine, funcs []*ssa.Function, res *e4Result) {
 					}
 					v = ex
 				}
-				for _, use := range derefUses(v) {
+				for _, use := range append(derefUses(v), argDerefUses(c.P, v)...) {
 					res.nNil++
 					key := e.descr(use, "nil-use", "result of "+shortName(who)+" used by "+useDesc(use), ord)
 					if nilGuarded(use, v) {
@@ -275,6 +331,90 @@ func e4Nil(e *e4Engine, funcs []*ssa.Function, res *e4Result) {
 								e.open(mi, key, shortName(who)+" can return a nil pointer; converting it to an interface here yields a non-nil interface around nil (a later nil test passes, the first method call panics)")
 							}
 						}
+					}
+				}
+			}
+		})
+	}
+	// (a') a result used although the error returned beside it was dropped: on the error path the value is the
+	// callee's nil (a stated belief "cannot fail" contradicted by the callee having an error path returning nil)
+	for _, f := range funcs {
+		if inUio(f) {
+			continue
+		}
+		ord := map[string]int{}
+		allInstrs(f, func(in ssa.Instruction) {
+			cl, ok := in.(*ssa.Call)
+			if !ok {
+				return
+			}
+			sig := cl.Call.Signature()
+			nres := sig.Results().Len()
+			if nres < 2 || !isErrorType(sig.Results().At(nres-1).Type()) {
+				return
+			}
+			if ex := extractOf(cl, nres-1); ex != nil && ex.Referrers() != nil && len(*ex.Referrers()) > 0 {
+				return // the error is looked at
+			}
+			if os.Getenv("DHCPVERIF_NILDEBUG") != "" {
+				fmt.Fprintf(os.Stderr, "dropped-error call in %s: %s cands=%d\n", f.String(), cl.String(), len(c.P.Callees(cl)))
+			}
+			var cands []*ssa.Function
+			if sf := cl.Call.StaticCallee(); sf != nil {
+				cands = []*ssa.Function{sf}
+			} else if cl.Call.IsInvoke() {
+				cands = c.P.Callees(cl)
+			}
+			for idx := 0; idx < nres-1; idx++ {
+				rt := sig.Results().At(idx).Type()
+				if !nilable(rt) {
+					continue
+				}
+				var who *ssa.Function
+				for _, g := range cands {
+					if inModule(g) && mayReturnNilWithErr(g, idx) {
+						who = g
+					}
+				}
+				if os.Getenv("DHCPVERIF_NILDEBUG") != "" {
+					fmt.Fprintf(os.Stderr, "  idx=%d who=%v\n", idx, who)
+				}
+				if who == nil {
+					continue
+				}
+				v := extractOf(cl, idx)
+				if v == nil {
+					continue
+				}
+				uses := derefUses(v)
+				uses = append(uses, argDerefUses(c.P, v)...)
+				if os.Getenv("DHCPVERIF_NILDEBUG") != "" {
+					fmt.Fprintf(os.Stderr, "  uses=%d\n", len(uses))
+				}
+				if _, isPtr := rt.Underlying().(*types.Pointer); isPtr {
+					for _, ref := range *v.Referrers() {
+						if mi, ok := ref.(*ssa.MakeInterface); ok {
+							// the boxed nil pointer handed on (argument, store, return): a later method call through it dereferences nil
+							passed := false
+							for _, r2 := range *mi.Referrers() {
+								switch r2.(type) {
+								case *ssa.Call, *ssa.Go, *ssa.Defer, *ssa.Store, *ssa.Return, *ssa.Send:
+									passed = true
+								}
+							}
+							if passed {
+								uses = append(uses, mi)
+							}
+						}
+					}
+				}
+				for _, use := range uses {
+					res.nNil++
+					key := e.descr(use, "nil-use", "result of "+shortName(who)+" (error dropped) used by "+useDesc(use), ord)
+					if nilGuarded(use, v) {
+						e.close(use, key, "D8 compared with nil on a dominating edge", "", false)
+					} else {
+						e.open(use, key, "the error returned by "+shortName(who)+" is dropped; when it fails the result is nil and is dereferenced (or boxed and handed on) here")
 					}
 				}
 			}
@@ -319,6 +459,82 @@ func e4Nil(e *e4Engine, funcs []*ssa.Function, res *e4Result) {
 	e4NilFields(e, funcs, res)
 }
 
+// argDerefUses: calls that pass v as an argument (not the receiver) to a module function which dereferences
+// that parameter without a nil check (followed through at most three forwarding calls)
+func argDerefUses(p *Prog, v ssa.Value) []ssa.Instruction {
+	var out []ssa.Instruction
+	if v.Referrers() == nil {
+		return nil
+	}
+	for _, ref := range *v.Referrers() {
+		ci, ok := ref.(ssa.CallInstruction)
+		if !ok {
+			continue
+		}
+		cc := ci.Common()
+		for j, a := range cc.Args {
+			if a != v {
+				continue
+			}
+			pi := j
+			if cc.IsInvoke() {
+				pi = j + 1
+			} else if f := cc.StaticCallee(); f != nil && f.Signature.Recv() != nil && j == 0 {
+				continue // receiver: judged by derefUses
+			}
+			hit := false
+			for _, g := range p.Callees(ci) {
+				if inModule(g) && paramDerefs(p, g, pi, 0) {
+					hit = true
+				}
+			}
+			if hit {
+				out = append(out, ref)
+			}
+		}
+	}
+	return out
+}
+
+func paramDerefs(p *Prog, g *ssa.Function, i, depth int) bool {
+	if g.Blocks == nil || i >= len(g.Params) || depth > 3 {
+		return false
+	}
+	prm := g.Params[i]
+	if !nilable(prm.Type()) {
+		return false
+	}
+	for _, u := range derefUses(prm) {
+		if !nilGuarded(u, prm) {
+			return true
+		}
+	}
+	for _, ref := range *prm.Referrers() {
+		ci, ok := ref.(ssa.CallInstruction)
+		if !ok || nilGuarded(ref, prm) {
+			continue
+		}
+		cc := ci.Common()
+		for j, a := range cc.Args {
+			if a != prm {
+				continue
+			}
+			pi := j
+			if cc.IsInvoke() {
+				pi = j + 1
+			} else if f := cc.StaticCallee(); f != nil && f.Signature.Recv() != nil && j == 0 {
+				continue
+			}
+			for _, h := range p.Callees(ci) {
+				if inModule(h) && h != g && paramDerefs(p, h, pi, depth+1) {
+					return true
+				}
+			}
+		}
+	}
+	return false
+}
+
 func useDesc(in ssa.Instruction) string {
 	switch u := in.(type) {
 	case *ssa.FieldAddr:
@@ -335,6 +551,8 @@ func useDesc(in ssa.Instruction) string {
 		}
 	case *ssa.UnOp:
 		return "dereference"
+	case *ssa.MakeInterface:
+		return "conversion to " + types.TypeString(u.Type(), shortQual)
 	}
 	return fmt.Sprintf("%T", in)
 }
